@@ -8,6 +8,7 @@ Local Open Scope list_scope.
 Section P3.
   Variable V : Type.
   Variable bin : binop -> V -> V -> V.
+  Variable un : unop -> V -> V.
   Notation node := (node V).
   Notation ival := (ival V).
 
@@ -21,6 +22,7 @@ Section P3.
         (fix go (ms : list (string * (nat * node))) : Prop :=
            match ms with [] => True | (_, (_, c)) :: ms' => wf c /\ go ms' end) ms
     | NBin _ ln rn l r => ln <> rn /\ wf l /\ wf r
+    | NUn _ _ c => wf c
     | NModel _ _ attrs | NColl attrs =>
         NoDup (map fst attrs) /\
         (fix go (a : list (string * node)) : Prop :=
@@ -47,9 +49,9 @@ Section P3.
 
   (* ---------- inst depends only on the values of the model's own parameters ---------- *)
   Lemma inst_ext (a1 a2 : nat -> option V) (n : node) :
-    wf n -> (forall q, In q (prior_ids V n) -> a1 q = a2 q) -> inst V bin a1 n = inst V bin a2 n.
+    wf n -> (forall q, In q (prior_ids V n) -> a1 q = a2 q) -> inst V bin un a1 n = inst V bin un a2 n.
   Proof.
-    induction n as [q|c|ms IH|o ln rn l r IHl IHr|cls ctor attrs IH|attrs IH] using (node_ind' V); intros W E.
+    induction n as [q|c|ms IH|o ln rn l r IHl IHr|uo unm uc IHc|cls ctor attrs IH|attrs IH] using (node_ind' V); intros W E.
     - cbn [inst]. rewrite (E q); [reflexivity|]. left; reflexivity.
     - reflexivity.
     - rewrite !inst_tuple. f_equal. f_equal. unfold member_vals. f_equal.
@@ -62,8 +64,12 @@ Section P3.
       { intros q Hq. unfold prior_ids. cbn [walk]. destruct (String.eqb_spec ln rn) as [Eq|_]; [contradiction|].
         rewrite map_app. apply in_or_app. unfold prefix_paths. rewrite !map_map. simpl. exact Hq. }
       rewrite (IHl Wl), (IHr Wr); [reflexivity| |]; intros q Hq; apply E; apply Sub; auto.
+    - assert (Ei : inst V bin un a1 uc = inst V bin un a2 uc).
+      { apply IHc; [exact W|]. intros q Hq. apply E. unfold prior_ids in *. cbn [walk].
+        unfold prefix_paths. rewrite map_map. simpl. exact Hq. }
+      cbn [inst]. rewrite Ei. reflexivity.
     - destruct W as [_ W]. cbn [inst]. rewrite !inst_attrs_map.
-      assert (M : map (fun kv => (fst kv, inst V bin a1 (snd kv))) attrs = map (fun kv => (fst kv, inst V bin a2 (snd kv))) attrs).
+      assert (M : map (fun kv => (fst kv, inst V bin un a1 (snd kv))) attrs = map (fun kv => (fst kv, inst V bin un a2 (snd kv))) attrs).
       { apply map_ext_in. intros [k c] Hin. simpl. f_equal. rewrite Forall_forall in IH. apply (IH _ Hin).
         - exact (wf_attrs_in attrs k c W Hin).
         - intros q Hq. apply E. unfold prior_ids. cbn [walk]. exact (walk_attrs_in V attrs k c q Hin Hq). }
@@ -136,7 +142,7 @@ Section P3.
 
   Lemma walk_prior_at (n : node) : wf n -> forall p q, In (p, q) (walk V n) -> prior_at V p n = Some q.
   Proof.
-    induction n as [q0|c|ms IH|o ln rn l r IHl IHr|cls ctor attrs IH|attrs IH] using (node_ind' V); intros W p q Hin.
+    induction n as [q0|c|ms IH|o ln rn l r IHl IHr|uo unm uc IHc|cls ctor attrs IH|attrs IH] using (node_ind' V); intros W p q Hin.
     - simpl in Hin. destruct Hin as [E|[]]. inversion E; subst. reflexivity.
     - contradiction.
     - destruct W as [ND W]. cbn [walk] in Hin.
@@ -148,6 +154,8 @@ Section P3.
       apply in_app_or in Hin. destruct Hin as [H|H]; apply in_prefix in H; destruct H as [p' [-> Hw]]; cbn [prior_at].
       + destruct (String.eqb_spec ln rn) as [E|_]; [contradiction|]. rewrite String.eqb_refl. apply IHl; assumption.
       + rewrite String.eqb_refl. apply IHr; assumption.
+    - cbn [walk] in Hin. apply in_prefix in Hin. destruct Hin as [p' [-> Hw]].
+      cbn [prior_at]. rewrite String.eqb_refl. apply IHc; assumption.
     - destruct W as [ND W]. cbn [walk] in Hin.
       destruct (attrs_walk_in attrs p q Hin) as [k [c [p' [-> [Ha Hw]]]]].
       cbn [prior_at]. rewrite (attrs_find attrs k c p' ND Ha).
@@ -192,7 +200,7 @@ Section P3.
 
   Theorem path_route (n : node) (vec : list V) :
     wf n -> List.length vec = prior_count V n ->
-    inst_from_paths V bin n (combine (unique_prior_paths V n) vec) = inst_from_vector V bin n vec.
+    inst_from_paths V bin un n (combine (unique_prior_paths V n) vec) = inst_from_vector V bin un n vec.
   Proof.
     intros W L. unfold inst_from_paths, inst_from_vector. apply inst_ext; [exact W|].
     intros q Hq. apply ordered_ids_in in Hq.
@@ -237,6 +245,7 @@ Section WfBool.
         (fix go (ms : list (string * (nat * node V))) : bool :=
            match ms with [] => true | (_, (_, c)) :: ms' => wfb c && go ms' end) ms
     | NBin _ ln rn l r => negb (String.eqb ln rn) && wfb l && wfb r
+    | NUn _ _ c => wfb c
     | NModel _ _ attrs | NColl attrs =>
         nodup_strings (map fst attrs) &&
         (fix go (a : list (string * node V)) : bool :=
@@ -245,7 +254,7 @@ Section WfBool.
 
   Lemma wfb_sound (n : node V) : wfb n = true -> wf V n.
   Proof.
-    induction n as [q|c|ms IH|o ln rn l r IHl IHr|cls ctor attrs IH|attrs IH] using (node_ind' V); intro H.
+    induction n as [q|c|ms IH|o ln rn l r IHl IHr|uo unm uc IHc|cls ctor attrs IH|attrs IH] using (node_ind' V); intro H.
     - exact I.
     - exact I.
     - cbn [wfb] in H. apply andb_true_iff in H. destruct H as [H1 H2]. cbn [wf]. split; [apply nodup_strings_sound; exact H1|].
@@ -257,6 +266,7 @@ Section WfBool.
     - cbn [wfb] in H. apply andb_true_iff in H. destruct H as [H12 H3]. apply andb_true_iff in H12. destruct H12 as [H1 H2].
       cbn [wf]. repeat split; [|apply IHl; exact H2|apply IHr; exact H3].
       intro E. subst. rewrite String.eqb_refl in H1. discriminate H1.
+    - apply IHc. exact H.
     - cbn [wfb] in H. apply andb_true_iff in H. destruct H as [H1 H2]. cbn [wf]. split; [apply nodup_strings_sound; exact H1|].
       induction attrs as [|[k c] attrs IHa]; [exact I|].
       apply andb_true_iff in H2. destruct H2 as [Hc Hr]. inversion IH as [|? ? IHc IHrest]; subst. simpl in IHc.
